@@ -560,7 +560,7 @@ class Unit:
                 node = node.setdefault('mods', {}).setdefault(seg, {})
             node.setdefault('files', []).append(repo_file)
         mod_prelude = self.cfg.get('module_prelude',
-            '#[allow(unused_imports)] use vstd::prelude::*;\n#[allow(unused_imports)] use crate::{pnet, log};\n#[allow(unused_imports)] use crate::shim::*;\n#[allow(unused_imports)] use crate::{World, Ev, Layer, Verb};\n#[allow(unused_imports)] use crate::pnet::cksum::*;\n#[allow(unused_imports)] use crate::pnet::pspec::*;\n#[allow(unused_imports)] use crate::pnet_lemmas::*;\n#[allow(unused_imports)] use crate::pnet::util::{mac_bytes, mac_at};\n#[allow(unused_imports)] use crate::client::*;\n#[allow(unused_imports)] use crate::evspec::*;\n#[allow(unused_imports)] use crate::appspec::*;\n#[allow(unused_imports)] use crate::cfgspec::*;\n#[allow(unused_imports)] use crate::tcpspec::*;\n#[allow(unused_imports)] use crate::tcbspec::*;\nbroadcast use {crate::evspec::group_events, crate::shim::group_ip_axioms, crate::shim::axiom_ipaddr_key_model, crate::pnet::util::axiom_macaddr_key_model, vstd::std_specs::hash::group_hash_axioms, crate::pnet_lemmas::group_pnet_fields, crate::pnet::cksum::axiom_pseudo6_swap};\n')
+            '#[allow(unused_imports)] use vstd::prelude::*;\n#[allow(unused_imports)] use crate::{pnet, log};\n#[allow(unused_imports)] use crate::shim::*;\n#[allow(unused_imports)] use crate::{World, Ev, Layer, Verb};\n#[allow(unused_imports)] use crate::pnet::cksum::*;\n#[allow(unused_imports)] use crate::pnet::pspec::*;\n#[allow(unused_imports)] use crate::pnet_lemmas::*;\n#[allow(unused_imports)] use crate::pnet::util::{mac_bytes, mac_at};\n#[allow(unused_imports)] use crate::client::*;\n#[allow(unused_imports)] use crate::evspec::*;\n#[allow(unused_imports)] use crate::appspec::*;\n#[allow(unused_imports)] use crate::cfgspec::*;\n#[allow(unused_imports)] use crate::tcpspec::*;\n#[allow(unused_imports)] use crate::tcbspec::*;\nbroadcast use {crate::evspec::group_events, crate::shim::group_ip_axioms, crate::shim::group_be_subrange, crate::shim::axiom_ipaddr_key_model, crate::pnet::util::axiom_macaddr_key_model, vstd::std_specs::hash::group_hash_axioms, crate::pnet_lemmas::group_pnet_fields, crate::pnet::cksum::axiom_pseudo6_swap};\n')
         def emit_node(node, depth, path=()):
             for f in node.get('files', []):
                 em.emit('// ---- extracted from %s\n' % f, ('gen', None, 0))
